@@ -422,13 +422,95 @@ struct Case<'a> {
     builder: Option<&'a bio::pattern_matching::myers::MyersBuilder>,
 }
 
+/// one search (search event + the calls of eager_search! / lazy_search!) on one object
+fn do_search(log: &mut Log, seed: u64, case: u64, si: usize, s: &Search, t: &[u8], mx: &mut Mx, obj: usize, simple: bool) -> bool {
+    if simple && s.k > 255 {
+        return true;
+    }
+    // the same random choices for every object of the run: the objects answer the same queries
+    let mut rng = Rng::new(seed, 40 + si as u64, case);
+    let r = log.call("search", json!({"obj": obj, "ti": s.ti, "k": s.k, "mode": if s.lazy { "lazy" } else { "eager" }}), || json!({}));
+    if !is_ok(&r) {
+        return false;
+    }
+    let k = s.k;
+    if s.lazy {
+        on_myers!(
+            mx,
+            m,
+            lazy_search!(log, rng, m, obj, t, k as u8, s, true),
+            lazy_search!(log, rng, m, obj, t, k_usize(k), s, false)
+        )
+    } else {
+        on_myers!(
+            mx,
+            m,
+            eager_search!(log, rng, m, obj, t, k as u8, s),
+            eager_search!(log, rng, m, obj, t, k_usize(k), s)
+        )
+    }
+}
+
+/// a fresh eager (find_all) or lazy (find_all_lazy) iterator consumed through count / last /
+/// nth / skip / step_by, or asked for its size_hint after n items
+macro_rules! iter_via {
+    ($it:expr, $how:expr, $n:expr, $item:expr) => {{
+        let mut it = $it;
+        let n: usize = $n;
+        match $how {
+            "count" => json!({"v": [it.count()]}),
+            "last" => json!({"v": it.last().map($item).into_iter().collect::<Vec<Value>>()}),
+            "nth" => json!({"v": it.nth(n).map($item).into_iter().collect::<Vec<Value>>()}),
+            "skip" => json!({"v": it.skip(n).map($item).collect::<Vec<Value>>()}),
+            "step_by" => json!({"v": it.step_by(n).map($item).collect::<Vec<Value>>()}),
+            _ => {
+                for _ in 0..n {
+                    it.next();
+                }
+                let (lo, hi) = it.size_hint();
+                json!({"v": [num(lo), hi.map(num).unwrap_or(-1)]})
+            }
+        }
+    }};
+}
+
+fn do_iter_via(log: &mut Log, mx: &mut Mx, obj: usize, ti: usize, t: &[u8], k: i64, lazy: bool, how: &str, n: usize) -> bool {
+    let r = log.call("search", json!({"obj": obj, "ti": ti, "k": k, "mode": if lazy { "lazy" } else { "eager" }}), || json!({}));
+    if !is_ok(&r) {
+        return false;
+    }
+    let r = log.call("iter_via", json!({"obj": obj, "how": how, "n": n}), || {
+        if lazy {
+            on_myers!(
+                mx,
+                m,
+                iter_via!(m.find_all_lazy(t.iter(), k as u8), how, n, |(e, d)| json!([num(e), num(d as usize)])),
+                iter_via!(m.find_all_lazy(t.iter(), k_usize(k)), how, n, |(e, d)| json!([num(e), num(d as usize)]))
+            )
+        } else {
+            on_myers!(
+                mx,
+                m,
+                iter_via!(m.find_all(t.iter(), k as u8), how, n, |(s, e, d)| json!([num(s), num(e), num(d as usize)])),
+                iter_via!(m.find_all(t.iter(), k_usize(k)), how, n, |(s, e, d)| json!([num(s), num(e), num(d as usize)]))
+            )
+        }
+    });
+    log.oblige(&format!("iterator_consumed_via_{}", how));
+    is_ok(&r)
+}
+
+fn objs_json(objs: &[(bool, usize)]) -> Value {
+    Value::Array(objs.iter().map(|o| json!({"impl": if o.0 { "long" } else { "simple" }, "w": o.1})).collect())
+}
+
 fn run_one(log: &mut Log, tag: &str, seed: u64, case: u64, c: &Case) {
     let cfg = json!({
         "p": bytes(c.p),
         "ambig": c.tb.ambig_json(),
         "wild": c.tb.wild_json(),
         "texts": Value::Array(c.texts.iter().map(|t| bytes(t)).collect()),
-        "objs": Value::Array(c.objs.iter().map(|o| json!({"impl": if o.long_impl { "long" } else { "simple" }, "w": o.w})).collect()),
+        "objs": objs_json(&c.objs.iter().map(|o| (o.long_impl, o.w)).collect::<Vec<_>>()),
     });
     if !log.begin(tag, cfg) {
         return;
@@ -451,37 +533,125 @@ fn run_one(log: &mut Log, tag: &str, seed: u64, case: u64, c: &Case) {
     for (si, s) in c.searches.iter().enumerate() {
         let t = &c.texts[s.ti - 1];
         for (oi, mx) in mxs.iter_mut().enumerate() {
-            let obj = oi + 1;
-            let simple = !c.objs[oi].long_impl;
-            if simple && s.k > 255 {
-                continue;
-            }
-            // the same random choices for every object of the run: the objects answer the same queries
-            let mut rng = Rng::new(seed, 40 + si as u64, case);
-            let r = log.call("search", json!({"obj": obj, "ti": s.ti, "k": s.k, "mode": if s.lazy { "lazy" } else { "eager" }}), || json!({}));
-            if !is_ok(&r) {
-                return;
-            }
-            let k = s.k;
-            let alive = if s.lazy {
-                on_myers!(
-                    mx,
-                    m,
-                    lazy_search!(log, rng, m, obj, t, k as u8, s, true),
-                    lazy_search!(log, rng, m, obj, t, k_usize(k), s, false)
-                )
-            } else {
-                on_myers!(
-                    mx,
-                    m,
-                    eager_search!(log, rng, m, obj, t, k as u8, s),
-                    eager_search!(log, rng, m, obj, t, k_usize(k), s)
-                )
-            };
-            if !alive {
+            if !do_search(log, seed, case, si, s, t, mx, oi + 1, !c.objs[oi].long_impl) {
                 return; // a panic inside the matcher: the object is not used any further
             }
         }
+    }
+    // the used objects stay behind as possible clone_from targets of a later run (run_values)
+    for m in mxs {
+        attic_put(m);
+    }
+}
+
+/// Matcher objects as values. objs of the run = the originals, then one clone per original, then
+/// (where this process still holds a used object of the same type from an earlier run, i.e. of
+/// another pattern) one clone_from target per original.
+///  1. first half of the searches on the originals
+///  2. Debug, clone() of every original; clone_from() into the used objects
+///  3. second half of the searches on originals, clones and clone_from targets
+///  4. first half again in reverse order on the originals (same searches, other order)
+///  5. fresh eager / lazy iterators consumed through count / last / nth / skip / step_by / size_hint
+fn run_values(log: &mut Log, tag: &str, seed: u64, case: u64, c: &Case) {
+    let n0 = c.objs.len();
+    let mut all: Vec<(bool, usize)> = c.objs.iter().map(|o| (o.long_impl, o.w)).collect();
+    all.extend(c.objs.iter().map(|o| (o.long_impl, o.w)));
+    let with_target: Vec<usize> = (0..n0).filter(|&oi| attic_has(variant_of(c.objs[oi].long_impl, c.objs[oi].w))).collect();
+    for &oi in &with_target {
+        all.push((c.objs[oi].long_impl, c.objs[oi].w));
+    }
+    let cfg = json!({
+        "p": bytes(c.p),
+        "ambig": c.tb.ambig_json(),
+        "wild": c.tb.wild_json(),
+        "texts": Value::Array(c.texts.iter().map(|t| bytes(t)).collect()),
+        "objs": objs_json(&all),
+    });
+    if !log.begin(tag, cfg) {
+        return;
+    }
+    let mut mxs: Vec<Mx> = vec![];
+    for (oi, o) in c.objs.iter().enumerate() {
+        let mut mx: Option<Mx> = None;
+        log.call("new", json!({"obj": oi + 1}), || {
+            mx = Some(build(o.long_impl, o.w, c.p, c.tb));
+            json!({})
+        });
+        match mx {
+            Some(m) => mxs.push(m),
+            None => return,
+        }
+    }
+    let half = c.searches.len() / 2;
+    for (si, s) in c.searches[..half].iter().enumerate() {
+        for oi in 0..n0 {
+            if !do_search(log, seed, case, si, s, &c.texts[s.ti - 1], &mut mxs[oi], oi + 1, !all[oi].0) {
+                return;
+            }
+        }
+    }
+    // copies
+    for oi in 0..n0 {
+        let mut cp: Option<Mx> = None;
+        let src = &mxs[oi];
+        log.call("debug", json!({"obj": oi + 1}), || json!({"len": src.debug_len()}));
+        log.call("clone", json!({"obj": n0 + oi + 1, "from": oi + 1}), || {
+            cp = Some(src.clone());
+            json!({})
+        });
+        match cp {
+            Some(m) => mxs.push(m),
+            None => return,
+        }
+    }
+    log.oblige("object_cloned_mid_history_both_continue");
+    for (x, &oi) in with_target.iter().enumerate() {
+        let mut tg = match attic_take(mxs[oi].variant()) {
+            Some(t) => t,
+            None => return,
+        };
+        let src = &mxs[oi];
+        let r = log.call("clone_from", json!({"obj": 2 * n0 + x + 1, "from": oi + 1, "target_debug_len_before": tg.debug_len()}), || {
+            json!({"same_variant": tg.clone_from_same(src)})
+        });
+        if !is_ok(&r) {
+            return;
+        }
+        mxs.push(tg);
+        log.oblige("clone_from_into_used_object");
+    }
+    for (sj, s) in c.searches[half..].iter().enumerate() {
+        for oi in 0..mxs.len() {
+            if !do_search(log, seed, case, half + sj, s, &c.texts[s.ti - 1], &mut mxs[oi], oi + 1, !all[oi].0) {
+                return;
+            }
+        }
+    }
+    for (si, s) in c.searches[..half].iter().enumerate().rev() {
+        for oi in 0..n0 {
+            if !do_search(log, seed, case, si, s, &c.texts[s.ti - 1], &mut mxs[oi], oi + 1, !all[oi].0) {
+                return;
+            }
+        }
+    }
+    log.oblige("same_searches_two_orders");
+    let mut rng = Rng::new(seed, 48, case);
+    for oi in 0..n0 {
+        for lazy in [false, true] {
+            let s = &c.searches[rng.below(c.searches.len() as u64) as usize];
+            let how = HOWS[rng.below(6) as usize];
+            let n = 1 + rng.below(3) as usize;
+            if s.k > 255 && !all[oi].0 {
+                continue;
+            }
+            if !do_iter_via(log, &mut mxs[oi], oi + 1, s.ti, &c.texts[s.ti - 1], s.k, lazy, how, n) {
+                return;
+            }
+        }
+    }
+    // the clones stay behind as used objects for a later clone_from
+    for m in mxs.drain(n0..2 * n0) {
+        attic_put(m);
     }
 }
 
@@ -809,7 +979,7 @@ pub fn drive(log: &mut Log) {
     // (d0) a unary run that fills the leading blocks exactly, then a tail over other symbols;
     //      the text repeats run and tail exactly (k = 0) or with one substituted symbol (cf. class (d) of the
     //      `myers` driver): blocks behind the seam are dropped and re-activated at the threshold
-    let nrun = log.opts.n(24, 200);
+    let nrun = log.opts.n(16, 200);
     for i in 0..nrun {
         case += 1;
         if !log.mine(case) {
@@ -857,7 +1027,7 @@ pub fn drive(log: &mut Log) {
     // (d) the edit budget is used up exactly at a block seam (am_common::seam_case): a hit of
     //     distance exactly k with all k edits in the upper blocks, single-word and block-based
     //     object side by side, eager and lazy
-    let reps = log.opts.n(2, 12);
+    let reps = log.opts.n(1, 12);
     for &w in &[8usize, 16] {
         for blocks in 2..=3usize {
             for b in 1..blocks {
@@ -919,7 +1089,38 @@ pub fn drive(log: &mut Log) {
         let objs = [Obj { long_impl: false, w: ws }, Obj { long_impl: true, w: wt.w }];
         run_one(log, "gs", seed, c, &Case { p: &wt.p, tb: &none, texts: &texts, objs: &objs, searches: &searches, builder: None });
     }
-    builder_histories(log, seed, case);
+    case = builder_histories(log, seed, case);
+
+    // (g) matcher objects as values (run_values), every word type of both implementations
+    let nov = log.opts.n(2, 12);
+    for &(ws, wl) in &[(8usize, 8usize), (16, 16), (32, 32), (64, 64), (64, 8), (32, 16)] {
+        for variant in 0..nov {
+            case += 1;
+            if !log.mine(case) {
+                continue;
+            }
+            let mut rng = Rng::new(seed, 49, case);
+            let m = (1 + rng.below(ws as u64) as usize).min(30);
+            let alpha: &[u8] = if variant % 2 == 0 { b"ACGT" } else { b"ab" };
+            let p = rng.seq(m, alpha);
+            let mut texts = vec![];
+            for _ in 0..2 {
+                let n = (m + 5 + rng.below(20) as usize).min(50);
+                texts.push(planted(&mut rng, &p, n, alpha, alpha, 2));
+            }
+            let mi = m as i64;
+            let searches = vec![
+                Search { ti: 1, k: 1, lazy: false, max_hits: 6, style: rng.below(4), light: false },
+                Search { ti: 2, k: 2, lazy: true, max_hits: 6, style: rng.below(4), light: false },
+                Search { ti: 1, k: (mi / 3).max(1), lazy: true, max_hits: 6, style: rng.below(4), light: true },
+                Search { ti: 2, k: 0, lazy: false, max_hits: 6, style: rng.below(4), light: true },
+                Search { ti: 2, k: mi, lazy: false, max_hits: 4, style: rng.below(4), light: false },
+                Search { ti: 1, k: 2, lazy: true, max_hits: 6, style: rng.below(4), light: false },
+            ];
+            let objs = [Obj { long_impl: false, w: ws }, Obj { long_impl: true, w: wl }];
+            run_values(log, "ov", seed, case, &Case { p: &p, tb: &none, texts: &texts, objs: &objs, searches: &searches, builder: None });
+        }
+    }
 }
 
 /// (f) builder histories: ONE MyersBuilder object is re-configured between builds - the same
@@ -955,6 +1156,20 @@ fn builder_histories(log: &mut Log, seed: u64, case0: u64) -> u64 {
             }
             let calls = h.calls.clone();
             run_one(log, "bh", seed, case, &Case { p: &p, tb: &calls, texts: &texts, objs: &objs, searches: &searches, builder: Some(&h.builder) });
+            if stage == 1 {
+                // the builder as a value: a clone and a serde_json round trip of it go their own
+                // way while the original continues; matchers are built from all three
+                let mut c1 = h.fork_clone();
+                builder_stage(&mut c1, 3);
+                let calls1 = c1.calls.clone();
+                run_one(log, "bh", seed, case, &Case { p: &p, tb: &calls1, texts: &texts, objs: &objs, searches: &searches[..2], builder: Some(&c1.builder) });
+                log.oblige("builder_cloned_mid_history");
+                let mut c2 = h.fork_serde();
+                builder_stage(&mut c2, 0);
+                let calls2 = c2.calls.clone();
+                run_one(log, "bh", seed, case, &Case { p: &p, tb: &calls2, texts: &texts, objs: &objs, searches: &searches[..2], builder: Some(&c2.builder) });
+                log.oblige("builder_serde_roundtrip_mid_history");
+            }
         }
     }
     case
